@@ -445,8 +445,11 @@ impl Driver {
             }
             Op::BalanceMasters(n) => run_op!(svc.balance_masters(n.clone()), |_| Value::Null),
             Op::ChangeConfig(n, k, v) => {
+                // several fields in one request are written "k1,k2" / "v1,v2"
                 let mut m = HashMap::new();
-                m.insert(k.clone(), v.clone());
+                for (k1, v1) in k.split(',').zip(v.split(',')) {
+                    m.insert(k1.to_string(), v1.to_string());
+                }
                 run_op!(svc.change_config(n.clone(), m), |_| Value::Null)
             }
             Op::AddFailure(a, r) => {
@@ -480,7 +483,16 @@ impl Driver {
         }
     }
 
+    /// All views after an operation. A panic while a view is being served comes back as
+    /// Err("PANIC: ..") so that the caller can report it instead of losing the worker thread.
     pub async fn snapshot(&mut self) -> Result<Snap, String> {
+        match AssertUnwindSafe(self.snapshot_inner()).catch_unwind().await {
+            Ok(r) => r,
+            Err(p) => Err(format!("PANIC: {}", panic_msg(p))),
+        }
+    }
+
+    async fn snapshot_inner(&mut self) -> Result<Snap, String> {
         let svc = self.svc.clone();
         let store = svc
             .get_all_data()
@@ -916,8 +928,18 @@ pub fn gen_op(rng: &mut Rng, snap: &Snap, ctx: &mut GenCtx) -> Op {
                 ("no_such_field", "1"),
                 ("migration_", "1"),
             ];
-            let (k, v) = rng.pick(&kv);
-            Op::ChangeConfig(name, k.to_string(), v.to_string())
+            // one field, or a request with several fields of which some may be invalid
+            let n_fields = if rng.chance(1, 3) { rng.urange(2, 4) } else { 1 };
+            let mut ks: Vec<&str> = vec![];
+            let mut vs: Vec<&str> = vec![];
+            for _ in 0..n_fields {
+                let (k, v) = rng.pick(&kv);
+                if !ks.contains(k) {
+                    ks.push(k);
+                    vs.push(v);
+                }
+            }
+            Op::ChangeConfig(name, ks.join(","), vs.join(","))
         }
         14 => {
             let addr = if all_addrs.is_empty() || rng.chance(1, 10) {
